@@ -23,6 +23,10 @@ JSON_SCORE = {"2": ("baseScore", "temporalScore", "environmentalScore"),
               "3": ("baseScore", "temporalScore", "environmentalScore"), "4": ("baseScore",)}
 
 
+PREDS3 = ("CVSS:3.%d/AV:N/AC:L/PR:N/UI:N/S:C/C:H/I:H/A:H/E:H/RL:U/RC:C/CR:H/IR:H/AR:H/MAV:N",
+          "CVSS:3.%d/AV:P/AC:H/PR:H/UI:R/S:U/C:L/I:N/A:N/E:U/RL:O/RC:U/CR:L/IR:L/AR:L/MAV:P")
+
+
 def check_wellformed(inp):
     ver, v = inp["ver"], inp["vector"]
     exp = scorecheck.as_floats(scorecheck.expected_scores(ver, v))
@@ -59,7 +63,7 @@ def check_wellformed(inp):
         fails.append(failure(list(want_sev), repr(sev), note="severities() vs official scale applied to the oracle scores %r" % (exp,)))
     if ver == "4" and getattr(o, "severity", None) != want_sev[0]:
         fails.append(failure(want_sev[0], repr(getattr(o, "severity", None)), note="CVSS4.severity attribute"))
-    for minimal in (False, True):
+    for minimal in (True, False, True):          # the minimal form FIRST: its ratings must not lean on an earlier full document
         j = o.as_json(minimal=minimal)
         for i, key in enumerate(JSON_SEV.get(ver, ())):
             if key in j:
@@ -144,6 +148,11 @@ def deterministic(part):
             part.check("wellformed", check_wellformed, {"ver": "3", "vector": v})
             part.evaluations += 1
             part.classes["v3 base-only"] += 1
+            # ... and once more right after an object WITH temporal and environmental metrics was rated and serialised (a Critical and
+            # a Low one in turn): the ratings in this object's documents are its own
+            part.check("wellformed", check_wellformed, {"ver": "3", "vector": v, "pred": PREDS3[part.classes["v3 base-only"] % 2] % minor})
+            part.evaluations += 1
+            part.classes["v3 base-only after a full object"] += 1
     return reached
 
 
